@@ -104,6 +104,8 @@ let run (toks : string list) : string option =
         lv := set_level !lv l (add_files !ucmp (level_files !lv l) [{ fnum = num; fents = es }]))
         (String.split_on_char ';' adds);
       st := { s with levels = !lv }; Some "ok"
+  | ["e_repair"; nums; nf] -> Some (set (do_repair !ucmp !st (nums_arg nums) (n_of_int (int_of_string nf))))
+  | ["e_nums"] -> Some (String.concat "," (List.map (fun f -> string_of_int (int_of_n f.fnum)) (List.concat !st.levels)))
   | ["e_save"] -> saved := !st; Some "ok"
   | ["e_restore"] -> st := !saved; Some "ok"
   | ["e_force_imm_none"] -> st := { !st with imm = None }; Some "ok"
